@@ -259,21 +259,23 @@ spif_mbuff_init_from_fd(spif_mbuff_t self, int fd)
     file_size = (spif_memidx_t) lseek(fd, (off_t) 0, SEEK_END);
     lseek(fd, file_pos, SEEK_SET);
     if (file_size < 0) {
-        spif_byteptr_t p;
-        size_t cnt = 0;
+        ssize_t cnt = 0;
 
         D_OBJ(("Unable to seek to EOF -- %s.\n", strerror(errno)));
         self->size = buff_inc;
         self->len = 0;
         self->buff = (spif_byteptr_t) MALLOC(self->size);
 
-        for (p = self->buff; (cnt = read(fd, p, buff_inc)) > 0; p += buff_inc) {
-            self->len += cnt;
-            if (cnt < buff_inc) {
-                break;
-            } else {
-                self->size += buff_inc;
+        for (;;) {
+            cnt = read(fd, self->buff + self->len, buff_inc);
+            if (cnt > 0) {
+                self->len += cnt;
+                self->size = self->len + buff_inc;
                 self->buff = (spif_byteptr_t) REALLOC(self->buff, self->size);
+            } else if ((cnt < 0) && (errno == EINTR)) {
+                continue;
+            } else {
+                break;
             }
         }
         self->size = self->len;
